@@ -1,4 +1,4 @@
-import SnaxVerif.Lemmas.AccfgPull
+import SnaxVerif.Lemmas.AccfgMove
 /-!
 # C06 — setup/compute overlap keeps every launch's configuration
 
@@ -38,6 +38,17 @@ theorem block_overlap_trace (cfg : Cfg) (a : AccId) (fs : List (Field × Var)) (
     (execB cfg false ((M.append (.cons (.setup a fs) .nil)).append rest) st).tr := by
   simp only [execB_append, Block.append, execB]
   rw [setup_commutes_with_quiet_code cfg a fs M ht hl hav st]
+
+/-- **Block-level overlap, every real step certified.** `applyBlockMove path flags b` moves the flagged statements of a
+segment of the block at `path` to the front of that segment — the setup *and the side-effect-free operations computing
+its operands* (`lazy_move_up`) — and succeeds only if every moved statement is independent (`indep`) of the statements it
+jumps over. Then the whole machine state is unchanged, wherever the block sits (any nesting, all trip counts). Which
+statements move is read off the real rewrite by the harness; the result must equal the real IR. -/
+theorem block_move_preserves (path : List Nat) (flags : List Bool) (b b' : Block)
+    (h : applyBlockMove path flags b = some b') (hwf : wfB b = true) (hn : nodupB b = true) (cfg : Cfg) (st : St) :
+    execB cfg false b' st = execB cfg false b st :=
+  rewriteB_exec cfg (blockMoveRw_ok cfg flags) b path noFacts b' h hwf hn st
+    (by intro a f x h; simp [noFacts] at h) (by intro a f x h; simp [noFacts] at h)
 
 /-- non-vacuity: the code between a launch and the next setup in the lowering's form -/
 example : touchesB 0 (.cons (.await 0) (.cons (.pure 9 .add [1, 2]) (.cons (.launch 1 []) .nil))) = false ∧
